@@ -22,6 +22,9 @@ Pick(cands) ==
 Clause(r) == Pick(<<
   <<"finished_run_was_rerun", r.prefix_ends_run /\ r.reran>>,
   <<"finished_run_not_finalized", r.prefix_ends_run /\ (r.res.status # r.ref.status \/ r.res.result # r.ref.result)>>,
+  \* the restarted server could not rebuild the run (or the rebuilt run breaks) and marks it failed although the
+  \* uninterrupted run does not fail -- a different way of not finishing with the same result than losing work
+  <<"resumed_run_fails", ~r.prefix_ends_run /\ r.res.status = "failed" /\ r.ref.status # "failed">>,
   <<"resumed_run_never_finishes", ~r.prefix_ends_run /\ r.ref.status # "running" /\ r.res.status = "running">>,
   <<"resumed_result_differs", ~r.prefix_ends_run /\ r.res.status # "running"
                                /\ (r.res.status # r.ref.status \/ r.res.result # r.ref.result)>>,
